@@ -1,5 +1,5 @@
-(* C08 — the unmarshaller as it was at the pinned commit: the five defects repaired by `fix:`
-   commits in /repo (51d123e, 5c830ae, adad03d, ff8cf38, 6703ec8), each switched back on through
+(* C08 — the unmarshaller as it was at the pinned commit: the defects repaired by `fix:`
+   commits in /repo (51d123e, 5c830ae, adad03d, ff8cf38, 6703ec8, 8273038), each switched back on through
    [variant] and refuted by a concrete (type, document) evaluated with vm_compute.  The same
    inputs are the first corpus entries of tools/props/c08.py. *)
 From Coq Require Import List ZArith Bool String Ascii.
@@ -15,7 +15,7 @@ Definition r15 : range := mkRange true (Some (mkDec 1 0)) (Some (mkDec 5 0)) tru
 
 (* F2: toOptionsWithContext rebuilt the option set without Range when optional=dep /
    optional=!dep resolved to "required" *)
-Definition pinned_dep : variant := mkVariant true false false false false.
+Definition pinned_dep : variant := mkVariant true false false false false false.
 Definition f2_type (neg : bool) : fields :=
   FCons "a" (Some (mkOpts true (Some (neg, "b")) None (Some r15) [] false)) (TPrim (KInt W0))
  (FCons "b" (Some (mkOpts true None None None [] false)) (TPrim (KInt W0)) FNil).
@@ -35,7 +35,7 @@ Example f2_negated_dependency :
 Proof. vm_compute. repeat split. Qed.
 
 (* validateNumberRange let NaN through (every comparison with NaN is false) *)
-Definition pinned_nan : variant := mkVariant false true false false false.
+Definition pinned_nan : variant := mkVariant false true false false false false.
 Definition nan_type : fields :=
   FCons "a" (Some (mkOpts false None None (Some r15) [] false)) (TPrim KF64) FNil.
 
@@ -51,7 +51,7 @@ Example nan_now_rejected :
 Proof. vm_compute. reflexivity. Qed.
 
 (* fillSlice called reflect.Value.Type on the zero Value for a null element of map[string][]T *)
-Definition pinned_nil_slice : variant := mkVariant false false true false false.
+Definition pinned_nil_slice : variant := mkVariant false false true false false false.
 Theorem total_refuted_nil_slice :
   exists cfg fs d, unmarshal pinned_nil_slice cfg fs d = Panic.
 Proof.
@@ -61,7 +61,7 @@ Proof.
 Qed.
 
 (* generateMap stored a scalar into map[string]*T with SetMapIndex *)
-Definition pinned_map_ptr : variant := mkVariant false false false true false.
+Definition pinned_map_ptr : variant := mkVariant false false false true false false.
 Theorem total_refuted_map_ptr :
   exists cfg fs d, unmarshal pinned_map_ptr cfg fs d = Panic.
 Proof.
@@ -77,7 +77,7 @@ Proof. vm_compute. reflexivity. Qed.
 
 (* header parameters: the key behind "optional=!" was not canonicalised, so the dependency
    always looked absent: valid input refused, and both-supplied accepted *)
-Definition pinned_negdep : variant := mkVariant false false false false true.
+Definition pinned_negdep : variant := mkVariant false false false false true false.
 Definition negdep_type : fields :=
   FCons "b" (Some (mkOpts true (Some (true, "c")) None None [] false)) (TPrim (KUint W32))
  (FCons "c" None (TPrim (KUint W32)) FNil).
@@ -96,3 +96,42 @@ Proof.
   exists header, negdep_type, (Some (JObj [("b", JStr "5"); ("c", JStr "2")])), (VStruct [VInt 5; VInt 2]).
   vm_compute. split; reflexivity.
 Qed.
+
+(* an embedded struct tagged ",optional": members with a default were counted as required, and
+   absent members never received their default *)
+Definition pinned_embed : variant := mkVariant false false false false false true.
+Definition embed_type (ptr : bool) : fields :=
+  FEmbed true ptr
+    (FCons "a" None (TPrim (KInt W0))
+    (FCons "b" (Some (mkOpts false None (Some "5") None [] false)) (TPrim (KInt W0))
+    (FCons "c" (Some (mkOpts true None (Some "7") None [] false)) (TPrim (KInt W0)) FNil)))
+  FNil.
+
+(* {"a":1}: b is defaulted, nothing is missing — refused as "not fully set" *)
+Theorem accept_complete_refuted_embedded_default :
+  exists cfg fs d v, decode cfg fs d = Some v /\ meets cfg fs d = true /\
+                     unmarshal pinned_embed cfg fs d <> Ok v.
+Proof.
+  exists plain, (embed_type false), (Some (JObj [("a", JNum "1")])),
+         (VStruct [VStruct [VInt 1; VInt 5; VInt 7]]).
+  vm_compute. repeat split. discriminate.
+Qed.
+
+(* {"a":1,"b":2}: accepted, but c holds 0 instead of its default 7 *)
+Theorem accept_exact_refuted_embedded_default :
+  exists cfg fs d v, unmarshal pinned_embed cfg fs d = Ok v /\ decode cfg fs d <> Some v.
+Proof.
+  exists plain, (embed_type true), (Some (JObj [("a", JNum "1"); ("b", JNum "2")])),
+         (VStruct [VPtr (VStruct [VInt 1; VInt 2; VInt 0])]).
+  vm_compute. split; [reflexivity | discriminate].
+Qed.
+
+Example embedded_now :
+  unmarshal fixed plain (embed_type true) (Some (JObj [("a", JNum "1")])) = Ok (VStruct [VPtr (VStruct [VInt 1; VInt 5; VInt 7])])
+  /\ unmarshal fixed plain (embed_type true) (Some (JObj [])) = Ok (VStruct [VNil])
+  /\ unmarshal fixed plain (embed_type true) (Some (JObj [("b", JNum "2")])) = Err ENotSet.
+Proof. vm_compute. repeat split. Qed.
+
+(* Not switchable here: before the seventh repair, under header parameters a member WITHOUT
+   options of an embedded struct tagged ",optional" was looked up un-canonicalised and silently
+   skipped (struct{Inner `header:",optional"`}, Inner{P uint8 `header:"p"`}, P: 2 -> P = 0). *)
